@@ -1,5 +1,6 @@
 """C03 — decoder accepts exactly the SCALE language and is total on any bytes (DESIGN §6 C03)."""
 from .common import *
+import re
 from .. import shape, decshape, types as T
 
 LEVEL = 'other'
@@ -322,6 +323,16 @@ def check_errprop(out, facts):
         for e in events(t):
             if e[0] == 'SWALLOW':
                 why.append('a Result is turned into an Option with %s at %s' % (e[1], e[2]))
+            if e[0] == 'COLLECT':
+                # a fallible iterator is collected into a growable container: when an element fails, the collection stops and
+                # the error is the result.  A fixed-size target (GenericArray, arrays, ...) may panic or misbehave on the
+                # short iterator; such a target is outside what was audited
+                tgt = str(e[1])
+                inner = re.sub(r'^core::result::Result<(.*), [^,]+>$', r'\1', tgt)
+                growable = ('alloc::vec::Vec<', 'alloc::collections::', 'alloc::string::String', 'std::collections::', 'hashbrown::')
+                if not inner.startswith(growable) and not inner.startswith('core::option::Option<alloc::'):
+                    why.append('a fallible iterator is collected into %s, which is not a growable container: what happens when an element fails '
+                               'part-way (panic, wrong length) is not covered' % inner[:80])
         rv = v
 
         def seq(term, tail):
